@@ -282,7 +282,7 @@ func init() {
 		Scenarios: func(tier string) []*Scenario {
 			s := []*Scenario{{Name: "one-pair+extras", Bound: -1, Run: c04Harness(1, true)}, {Name: "two-pairs", Bound: -1, Run: c04Harness(2, false)}}
 			if tier == "thorough" {
-				s = append(s, &Scenario{Name: "two-pairs+extras", Bound: -1, Run: c04Harness(2, true)})
+				s = append(s, &Scenario{Name: "two-pairs+extras", Bound: -1, Run: c04Harness(2, true)}, &Scenario{Name: "three-pairs", Bound: -1, Run: c04Harness(3, false)})
 			}
 			return s
 		},
